@@ -57,6 +57,21 @@ fn witnesses() -> Vec<Case> {
             vec![vec![Cmd::Insert("t1".into(), vec![2])], vec![Cmd::Drop("t1".into())]],
             vec![(1, "vm.commit.begin"), (2, "end"), (1, "end")],
         ),
+        // DROP TABLE builds its changeset (DeleteDV of the delete vector it sees) from its pinned
+        // snapshot; a compaction commits in between and deletes that delete vector (it does so
+        // since /repo 5071ff5); the DROP's phase A then unwraps a missing entry in
+        // `Snapshot::delete_dv`
+        case(
+            "w-drop-dv-vs-compaction",
+            vec![
+                Cmd::Create("t1".into()),
+                Cmd::Insert("t1".into(), vec![1, 2]),
+                Cmd::Insert("t1".into(), vec![3, 4]),
+                Cmd::Delete("t1".into(), "lt".into(), 3),
+            ],
+            vec![vec![Cmd::Drop("t1".into())], vec![Cmd::Compact]],
+            vec![(2, "cp.pinned"), (1, "vm.commit.begin"), (2, "end"), (1, "end")],
+        ),
         // purely sequential: DELETE, compaction, DROP, reopen
         case(
             "w-seq-dv-compact-drop",
